@@ -1,7 +1,737 @@
 package engine
 
-// TryReplay attempts to turn a failed obligation into a concrete failing run of the real code.
-// (filled in by replay recipes; the default is no replay)
-func TryReplay(p *Program, o *Obligation, opts SolveOpts) map[string]any {
-	return map[string]any{"attempted": false, "reason": "no replay recipe for this unit", "result": "no-failing-input-found"}
+import (
+	"encoding/hex"
+	"encoding/json"
+	"fmt"
+	"go/types"
+	"os"
+	"os/exec"
+	"path/filepath"
+	"regexp"
+	"sort"
+	"strconv"
+	"strings"
+	"sync"
+	"time"
+
+	"golang.org/x/tools/go/ssa"
+)
+
+// ---------------------------------------------------------------------------------------------
+// Counterexample replay.  A failed obligation usually comes back `unknown` (quantifiers), so a CANDIDATE model is
+// obtained from the query with every quantified assertion removed (a weakening: the candidate may be spurious);
+// it is then only trusted if the REAL code misbehaves on it: a panic or a hang for safety/termination
+// obligations, or a behaviour that differs from the committed HEAD for the others (differential replay).
+// ---------------------------------------------------------------------------------------------
+
+var baseOnce sync.Once
+var baseDir string
+var baseErr error
+
+func repoDir() string {
+	if r := os.Getenv("VERIF_REPO"); r != "" {
+		return r
+	}
+	return "/repo"
 }
+
+// baselineDir returns a scratch checkout of HEAD of the repository under test (created once per process).
+func baselineDir() (string, error) {
+	baseOnce.Do(func() {
+		baseDir = filepath.Join(os.TempDir(), fmt.Sprintf("govc-base-%d", os.Getpid()))
+		out, err := exec.Command("git", "-C", repoDir(), "worktree", "add", "-f", "--detach", baseDir, "HEAD").CombinedOutput()
+		if err != nil {
+			baseErr = fmt.Errorf("git worktree: %v: %s", err, out)
+		}
+	})
+	return baseDir, baseErr
+}
+
+// CleanupReplay removes the baseline checkout.
+func CleanupReplay() {
+	if baseDir != "" {
+		exec.Command("git", "-C", repoDir(), "worktree", "remove", "--force", baseDir).Run()
+		os.RemoveAll(baseDir)
+	}
+}
+
+func treeChanged() bool {
+	out, _ := exec.Command("git", "-C", repoDir(), "status", "--porcelain", "--", "*.go").Output()
+	return strings.TrimSpace(string(out)) != ""
+}
+
+type replayRecipe struct {
+	kind    string // request | stream
+	pkgDir  string // ./redis or ./redis/proto
+	tmpl    string
+	command string   // command name for request recipes
+	prefix  []string // arguments placed before the model's arguments
+	arrTerm string   // SMT term of the *proto.Array holding the arguments
+	streamPrefix string
+	password bool // run with a configured password (gate scenarios)
+	msgBytes bool // the request is an unknown command whose name is the model's msg.bytes
+}
+
+var helperCommands = map[string][2]string{
+	"redis.nextSetOptionArguments":      {"SET", "k v"},
+	"redis.nextStringMapArguments":      {"MSET", ""},
+	"redis.nextMSetArguments":           {"MSET", ""},
+	"redis.nextRangeScoreIndexArgument": {"ZRANGEBYSCORE", "k"},
+	"redis.nextRangeOptionArguments":    {"ZRANGE", "k 0 1"},
+	"redis.nextScanArgument":            {"SCAN", "0"},
+	"redis.nextExpireArgument":          {"EXPIRE", "k 10"},
+	"redis.nextPopArguments":            {"LPOP", ""},
+	"redis.nextPushArguments":           {"LPUSH", ""},
+	"redis.nextSetExArguments":          {"SETEX", ""},
+	"redis.nextIntegerArgument":         {"LINDEX", "k"},
+	"redis.nextRangeIndexArgument":      {"ZREVRANGE", "k"},
+	"redis.nextStringArgument":          {"GET", ""},
+	"redis.nextKeyArgument":             {"GET", ""},
+	"redis.nextHashArgument":            {"HGETALL", ""},
+	"redis.nextStringArrayArguments":    {"DEL", ""},
+	"redis.nextKeysArguments":           {"DEL", ""},
+	"redis.nextMGetArguments":           {"MGET", ""},
+	"redis.nextFloatArgument":           {"ZINCRBY", "k"},
+	"redis.nextScoreArgument":           {"ZINCRBY", "k"},
+	"redis.nextSetArguments":            {"SETNX", ""},
+}
+
+func recipeFor(p *Program, g *Gen) *replayRecipe {
+	fn := g.Fn
+	key := FuncKey(fn)
+	if fn.Pkg != nil && fn.Pkg.Pkg.Name() == "proto" {
+		pre := map[string]string{
+			"proto.(*Parser).Next": "", "proto.(*Parser).nextLineBytes": "+", "proto.(*Parser).nextBulkMessage": "$",
+			"proto.(*Parser).nextArrayMessage": "*", "proto.newArrayWithParser": "*", "proto.(*Parser).nextLengthBytes": "$NUM",
+		}
+		if sp, ok := pre[key]; ok {
+			return &replayRecipe{kind: "stream", pkgDir: "./redis/proto", tmpl: "proto_replay_test.go.txt", streamPrefix: sp}
+		}
+		if key == "proto.(*Message).RESPBytes" || key == "proto.(*Array).RESPBytes" {
+			// the serializer is reached with client bytes through the error reply for an unknown command name
+			return &replayRecipe{kind: "request", pkgDir: "./redis", tmpl: "redis_replay_test.go.txt", command: "", msgBytes: true}
+		}
+		return nil
+	}
+	if fn.Pkg != nil && fn.Pkg.Pkg.Name() == "auth" {
+		return &replayRecipe{kind: "request", pkgDir: "./redis", tmpl: "redis_replay_test.go.txt", command: "PING", password: true}
+	}
+	if fn.Pkg == nil || fn.Pkg.Pkg.Name() != "redis" {
+		return nil
+	}
+	// find the *proto.Array parameter
+	arr := ""
+	for _, prm := range fn.Params {
+		if pt, ok := prm.Type().(*types.Pointer); ok {
+			if nt, ok := pt.Elem().(*types.Named); ok && nt.Obj().Name() == "Array" && nt.Obj().Pkg().Name() == "proto" {
+				arr = g.vals[prm].T
+			}
+		}
+	}
+	r := &replayRecipe{kind: "request", pkgDir: "./redis", tmpl: "redis_replay_test.go.txt", arrTerm: arr}
+	if name, ok := p.ExecName[fn]; ok {
+		r.command = name
+		return r
+	}
+	if hc, ok := helperCommands[key]; ok && arr != "" {
+		r.command = hc[0]
+		r.prefix = strings.Fields(hc[1])
+		return r
+	}
+	if par := fn.Parent(); par != nil && strings.Contains(key, "registerSugarExecutors$1") {
+		r.command = "INCRBY"
+		r.arrTerm = ""
+		return r
+	}
+	switch key {
+	case "redis.(*Server).handleArrayMessage", "redis.(*Server).executeCommand":
+		r.command = "" // first element is the command itself
+		return r
+	case "redis.(*Server).receive", "redis.(*Server).handleMessage", "redis.(*Server).responseMessage":
+		r.arrTerm = ""
+		r.command = "PING"
+		return r
+	case "redis.(*Server).Auth":
+		r.arrTerm = ""
+		r.command = "PING"
+		r.password = true
+		return r
+	}
+	return nil
+}
+
+var valRe = regexp.MustCompile(`^\(\s*(.*)\s+([^\s()]+|\(- \d+\))\)$`)
+
+// queryValues runs the quantifier-free weakening of the obligation with extra constraints and returns the values of terms.
+func queryValues(o *Obligation, extra []string, terms []string) (map[string]string, bool) {
+	g := o.Gen
+	var b strings.Builder
+	for _, ln := range strings.Split(g.S.text(), "\n") {
+		if strings.Contains(ln, "(forall ") || strings.Contains(ln, "(exists ") {
+			continue
+		}
+		b.WriteString(ln)
+		b.WriteByte('\n')
+	}
+	d, q := obligationQuery(o)
+	for _, ln := range strings.Split(d, "\n") {
+		if strings.Contains(ln, "(forall ") || strings.Contains(ln, "(exists ") {
+			continue
+		}
+		b.WriteString(ln)
+		b.WriteByte('\n')
+	}
+	if strings.Contains(q, "(forall ") || strings.Contains(q, "(exists ") {
+		return nil, false
+	}
+	fmt.Fprintf(&b, "(assert %s)\n", q)
+	for _, e := range extra {
+		fmt.Fprintf(&b, "(assert %s)\n", e)
+	}
+	b.WriteString("(check-sat)\n")
+	for _, t := range terms {
+		fmt.Fprintf(&b, "(get-value (%s))\n", t)
+	}
+	f, err := os.CreateTemp("", "govc-cex-*.smt2")
+	if err != nil {
+		return nil, false
+	}
+	defer os.Remove(f.Name())
+	f.WriteString(b.String())
+	f.Close()
+	out, _ := runCmd(20*time.Second, []string{"z3-new", "-smt2", "-t:8000", f.Name()})
+	lines := strings.Split(out, "\n")
+	if len(lines) == 0 || strings.TrimSpace(lines[0]) != "sat" {
+		return nil, false
+	}
+	vals := map[string]string{}
+	// each get-value prints ((term value)) possibly over several lines; join and split by "(("
+	rest := strings.Join(lines[1:], " ")
+	parts := strings.Split(rest, "((")
+	k := 0
+	for _, pt := range parts[1:] {
+		pt = strings.TrimSpace(pt)
+		if i := strings.LastIndex(pt, "))"); i >= 0 {
+			pt = pt[:i]
+		}
+		if k >= len(terms) {
+			break
+		}
+		t := terms[k]
+		k++
+		v := strings.TrimSpace(strings.TrimPrefix(pt, t))
+		vals[t] = v
+	}
+	return vals, true
+}
+
+func smtInt(v string) (int64, bool) {
+	v = strings.TrimSpace(v)
+	neg := false
+	if strings.HasPrefix(v, "(-") {
+		neg = true
+		v = strings.TrimSpace(strings.TrimSuffix(strings.TrimPrefix(v, "(-"), ")"))
+	}
+	n, err := strconv.ParseInt(v, 10, 64)
+	if err != nil {
+		// out of int64 range
+		return 0, false
+	}
+	if neg {
+		n = -n
+	}
+	return n, true
+}
+
+func respBulk(b []byte) []byte {
+	return append(append([]byte(fmt.Sprintf("$%d\r\n", len(b))), b...), '\r', '\n')
+}
+
+// buildRequest turns the model's argument array into RESP request bytes.
+func buildRequest(o *Obligation, r *replayRecipe) ([]byte, map[string]any, bool) {
+	g := o.Gen
+	info := map[string]any{}
+	var elems [][]byte // encoded elements after the command and prefix
+	if r.msgBytes {
+		if recv, ok := g.params["msg"]; ok && g.S.declared[qsym("F|proto.Message|bytes@0")] && g.S.declared[qsym("E|Int@0")] {
+			bs := sel(qsym("F|proto.Message|bytes@0"), recv.T)
+			inner := sel(qsym("E|Int@0"), sx("s-arr", bs))
+			ln := sx("s-len", bs)
+			terms := []string{ln}
+			var bts []string
+			for j := 0; j < 16; j++ {
+				bts = append(bts, sel(inner, sx("+", sx("s-off", bs), num(int64(j)))))
+			}
+			terms = append(terms, bts...)
+			if ev, ok := queryValues(o, []string{sx("<=", ln, "16")}, terms); ok {
+				L, _ := smtInt(ev[ln])
+				var payload []byte
+				for j := int64(0); j < L && j < 16; j++ {
+					bv, _ := smtInt(ev[bts[j]])
+					if bv < 0 || bv > 255 {
+						bv = 'x'
+					}
+					payload = append(payload, byte(bv))
+				}
+				elems = append(elems, respBulk(payload))
+			}
+		}
+		if len(elems) == 0 {
+			elems = append(elems, respBulk([]byte("x\ry")))
+		}
+	}
+	if r.arrTerm != "" && g.S.declared[qsym("F|proto.Array|msgs@0")] {
+		A := r.arrTerm
+		msgs := sel(qsym("F|proto.Array|msgs@0"), A)
+		idxT := "0"
+		if g.S.declared[qsym("F|proto.Array|index@0")] {
+			idxT = sel(qsym("F|proto.Array|index@0"), A)
+		}
+		n := sx("s-len", msgs)
+		vals, ok := queryValues(o, []string{sx("<=", n, "8"), sx("<=", "0", idxT)}, []string{n, idxT})
+		if !ok {
+			vals, ok = queryValues(o, nil, []string{n, idxT})
+			if !ok {
+				return nil, info, false
+			}
+		}
+		nv, _ := smtInt(vals[n])
+		iv, _ := smtInt(vals[idxT])
+		if nv > 12 {
+			nv = 12
+		}
+		info["model_len"], info["model_index"] = nv, iv
+		fix := []string{eq(n, num(nv)), eq(idxT, num(iv))}
+		hasE := g.S.declared[qsym("E|Ref@0")]
+		hasT := g.S.declared[qsym("F|proto.Message|Type@0")]
+		hasB := g.S.declared[qsym("F|proto.Message|bytes@0")]
+		hasI := g.S.declared[qsym("E|Int@0")]
+		var lits []string
+		for v := range g.S.lits {
+			lits = append(lits, v)
+		}
+		sort.Strings(lits)
+		for k := iv; k < nv; k++ {
+			if !hasE {
+				elems = append(elems, respBulk([]byte("x")))
+				continue
+			}
+			ref := sel(sel(qsym("E|Ref@0"), sx("s-arr", msgs)), sx("+", sx("s-off", msgs), num(k)))
+			var terms []string
+			isNull := eq(ref, "null")
+			terms = append(terms, isNull)
+			typ, blen, bnull, str := "", "", "", ""
+			if hasT {
+				typ = sel(qsym("F|proto.Message|Type@0"), ref)
+				terms = append(terms, typ)
+			}
+			var byteTerms []string
+			if hasB {
+				bs := sel(qsym("F|proto.Message|bytes@0"), ref)
+				blen, bnull = sx("s-len", bs), eq(sx("s-arr", bs), "null")
+				terms = append(terms, blen, bnull)
+				if hasI {
+					inner := sel(qsym("E|Int@0"), sx("s-arr", bs))
+					str = sx("str.ofbytes", inner, sx("s-off", bs), sx("s-len", bs))
+					for j := 0; j < 24; j++ {
+						bt := sel(inner, sx("+", sx("s-off", bs), num(int64(j))))
+						byteTerms = append(byteTerms, bt)
+					}
+					terms = append(terms, byteTerms...)
+					if g.S.declared[qsym("spec:atoiOK")] {
+						terms = append(terms, sx(qsym("spec:atoiOK"), str))
+					}
+					if g.S.declared[qsym("spec:atoi")] {
+						terms = append(terms, sx(qsym("spec:atoi"), str))
+					}
+					if g.S.declared[qsym("spec:toUpper")] {
+						for _, l := range lits {
+							terms = append(terms, eq(sx(qsym("spec:toUpper"), str), g.S.lits[l]))
+						}
+					}
+				}
+			}
+			ev, ok := queryValues(o, fix, terms)
+			if !ok {
+				elems = append(elems, respBulk([]byte("x")))
+				continue
+			}
+			if ev[isNull] == "true" {
+				info[fmt.Sprintf("elem%d", k)] = "nil element (cannot be sent by a client)"
+				continue
+			}
+			var payload []byte
+			L := int64(1)
+			if blen != "" {
+				if v, ok := smtInt(ev[blen]); ok {
+					L = v
+				}
+			}
+			if L > 24 {
+				L = 24
+			}
+			for j := int64(0); j < L && int(j) < len(byteTerms); j++ {
+				bv, _ := smtInt(ev[byteTerms[j]])
+				if bv < 0 || bv > 255 {
+					bv = 'x'
+				}
+				payload = append(payload, byte(bv))
+			}
+			if str != "" {
+				if ev[sx(qsym("spec:atoiOK"), str)] == "true" {
+					if iv2, ok := smtInt(ev[sx(qsym("spec:atoi"), str)]); ok {
+						payload = []byte(strconv.FormatInt(iv2, 10))
+					} else {
+						payload = []byte(strings.Trim(ev[sx(qsym("spec:atoi"), str)], "()- "))
+					}
+				}
+				for _, l := range lits {
+					if ev[eq(sx(qsym("spec:toUpper"), str), g.S.lits[l])] == "true" && l != "" {
+						payload = []byte(l)
+					}
+				}
+			}
+			t := int64(3)
+			if typ != "" {
+				if tv, ok := smtInt(ev[typ]); ok {
+					t = tv
+				}
+			}
+			switch {
+			case bnull != "" && ev[bnull] == "true" && t == 3:
+				elems = append(elems, []byte("$-1\r\n"))
+			case t == 0:
+				elems = append(elems, append(append([]byte("+"), sanitizeLine(payload)...), '\r', '\n'))
+			case t == 2:
+				elems = append(elems, append(append([]byte(":"), sanitizeLine(payload)...), '\r', '\n'))
+			case t == 4:
+				elems = append(elems, []byte("*0\r\n"))
+			case t == 1:
+				elems = append(elems, append(append([]byte("-"), sanitizeLine(payload)...), '\r', '\n'))
+			default:
+				elems = append(elems, respBulk(payload))
+			}
+		}
+	}
+	var head [][]byte
+	if r.command != "" {
+		head = append(head, respBulk([]byte(r.command)))
+	}
+	for _, pa := range r.prefix {
+		head = append(head, respBulk([]byte(pa)))
+	}
+	all := append(head, elems...)
+	req := []byte(fmt.Sprintf("*%d\r\n", len(all)))
+	for _, e := range all {
+		req = append(req, e...)
+	}
+	info["request"] = string(req)
+	return req, info, true
+}
+
+func respCmd(args ...string) string {
+	b := []byte(fmt.Sprintf("*%d\r\n", len(args)))
+	for _, a := range args {
+		b = append(b, respBulk([]byte(a))...)
+	}
+	return hex.EncodeToString(b)
+}
+
+// scenarioPortfolio: fixed request sequences tried in addition to the model's candidate (for obligations whose
+// failing input is a request outcome rather than an argument value).
+func scenarioPortfolio(password bool) [][]string {
+	if password {
+		return [][]string{
+			{respCmd("GET", "k")},
+			{respCmd("AUTH", ""), respCmd("GET", "k")},
+			{respCmd("AUTH", "wrong"), respCmd("GET", "k")},
+			{respCmd("AUTH", "s3cre"), respCmd("GET", "k")},
+			{respCmd("AUTH", "S3CRET"), respCmd("SET", "k", "v")},
+			{respCmd("AUTH", "admin", "x"), respCmd("GET", "k")},
+			{respCmd("AUTH", "admin", ""), respCmd("GET", "k")},
+			{respCmd("auth", "x"), respCmd("STRLEN", "k")},
+			{respCmd("AUTH"), respCmd("HLEN", "k")},
+			{respCmd("AUTHX", "x"), respCmd("SUBSTR", "k", "0", "1")},
+		}
+	}
+	return [][]string{
+		{respCmd("PING"), respCmd("GET", "k"), respCmd("QUIT")},
+		{respCmd("NOSUCHCMD", "a"), respCmd("PING")},
+		{respCmd("GET"), respCmd("SET", "k"), respCmd("PING")},
+		{hex.EncodeToString([]byte("+PING\r\n")), respCmd("PING")},
+		{hex.EncodeToString([]byte("*0\r\n")), respCmd("PING")},
+		{respCmd("STRLEN", "k"), respCmd("HLEN", "h"), respCmd("HKEYS", "h"), respCmd("QUIT")},
+		{respCmd("ZADD", "z", "NX", "1", "m"), respCmd("PING")},
+		{respCmd("SET", "k", "v", "EX", "10", "NX"), respCmd("INCR", "k"), respCmd("GETRANGE", "k", "0", "3")},
+		{respCmd("foo\rX+OK\rX"), respCmd("PING")},
+		{respCmd("x\r\n+OK"), respCmd("x\ny"), respCmd("CONFIG", "a\rb")},
+	}
+}
+
+func sanitizeLine(b []byte) []byte {
+	out := make([]byte, 0, len(b))
+	for _, c := range b {
+		if c == '\r' || c == '\n' {
+			c = '_'
+		}
+		out = append(out, c)
+	}
+	return out
+}
+
+// buildStream turns the model's ghost stream into bytes.
+func buildStream(o *Obligation, r *replayRecipe) ([]byte, map[string]any, bool) {
+	g := o.Gen
+	info := map[string]any{}
+	pos, end, in := qsym("G|S_pos@0"), qsym("G|S_end@0"), qsym("G|S_in@0")
+	if !g.S.declared[pos] || !g.S.declared[end] {
+		return nil, info, false
+	}
+	span := sx("-", end, pos)
+	terms := []string{pos, end}
+	numT := ""
+	if v, ok := g.params["num"]; ok {
+		numT = v.T
+		terms = append(terms, numT)
+	}
+	var vals map[string]string
+	ok := false
+	if numT != "" {
+		// boundary push: prefer an extreme declared length
+		vals, ok = queryValues(o, []string{sx("<=", span, "48"), sx(">=", numT, "9223372036854775000")}, terms)
+	}
+	if !ok {
+		vals, ok = queryValues(o, []string{sx("<=", span, "48")}, terms)
+	}
+	if !ok {
+		vals, ok = queryValues(o, nil, terms)
+		if !ok {
+			return nil, info, false
+		}
+	}
+	pv, _ := smtInt(vals[pos])
+	ev, _ := smtInt(vals[end])
+	n := ev - pv
+	if n < 0 {
+		n = 0
+	}
+	if n > 96 {
+		n = 96
+	}
+	fix := []string{eq(pos, num(pv)), eq(end, num(ev))}
+	var bts []string
+	if g.S.declared[in] {
+		for j := int64(0); j < n; j++ {
+			bts = append(bts, sel(in, num(pv+j)))
+		}
+	}
+	var data []byte
+	if len(bts) > 0 {
+		bv, ok := queryValues(o, fix, bts)
+		if ok {
+			for _, t := range bts {
+				v, _ := smtInt(bv[t])
+				if v < 0 || v > 255 {
+					v = 'x'
+				}
+				data = append(data, byte(v))
+			}
+		}
+	}
+	for int64(len(data)) < n {
+		data = append(data, 'x')
+	}
+	prefix := r.streamPrefix
+	if prefix == "$NUM" {
+		nv := strings.Trim(vals[numT], "() ")
+		nv = strings.ReplaceAll(nv, "- ", "-")
+		prefix = "$" + nv + "\r\n"
+	}
+	stream := append([]byte(prefix), data...)
+	info["stream"] = string(stream)
+	return stream, info, true
+}
+
+type replayRun struct {
+	Lines []map[string]any
+	Raw   string
+	Err   string
+}
+
+func runReplay(dir string, r *replayRecipe, spec any) replayRun {
+	tmp, err := os.MkdirTemp("", "govc-replay-*")
+	if err != nil {
+		return replayRun{Err: err.Error()}
+	}
+	defer os.RemoveAll(tmp)
+	sb, _ := json.Marshal(spec)
+	specFile := filepath.Join(tmp, "spec.json")
+	os.WriteFile(specFile, sb, 0o644)
+	src, err := os.ReadFile(filepath.Join(verifHome(), "replay", r.tmpl))
+	if err != nil {
+		return replayRun{Err: err.Error()}
+	}
+	testSrc := filepath.Join(tmp, "zz_verif_replay_test.go")
+	os.WriteFile(testSrc, src, 0o644)
+	target := filepath.Join(dir, strings.TrimPrefix(r.pkgDir, "./"), "zz_verif_replay_test.go")
+	ov, _ := json.Marshal(map[string]any{"Replace": map[string]string{target: testSrc}})
+	ovFile := filepath.Join(tmp, "overlay.json")
+	os.WriteFile(ovFile, ov, 0o644)
+	cmd := exec.Command("go", "test", "-mod=readonly", "-overlay", ovFile, "-vet=off", "-count=1", "-v", "-timeout", "120s", "-run", "^TestVerifReplay$", r.pkgDir)
+	cmd.Dir = dir
+	cmd.Env = append(os.Environ(), "GOFLAGS=", "GOPROXY=off", "GOSUMDB=off", "GOTOOLCHAIN=local", "GOWORK=off", "VERIF_REPLAY_SPEC="+specFile)
+	out, err := cmd.CombinedOutput()
+	run := replayRun{Raw: string(out)}
+	if err != nil {
+		run.Err = err.Error()
+	}
+	for _, ln := range strings.Split(string(out), "\n") {
+		if i := strings.Index(ln, "VERIF-REPLAY "); i >= 0 {
+			var m map[string]any
+			if json.Unmarshal([]byte(ln[i+len("VERIF-REPLAY "):]), &m) == nil {
+				delete(m, "stack_full")
+				run.Lines = append(run.Lines, m)
+			}
+		}
+	}
+	return run
+}
+
+func outcomeKey(m map[string]any) string {
+	k := fmt.Sprint(m["scenario"], m["stream"], "/", m["variant"], m["chunking"])
+	return k
+}
+
+// TryReplay attempts to turn a failed obligation into a concrete failing run of the real code.
+func TryReplay(p *Program, o *Obligation, opts SolveOpts) map[string]any {
+	res := map[string]any{"attempted": false, "result": "no-failing-input-found"}
+	if o.Gen == nil {
+		return res
+	}
+	r := recipeFor(p, o.Gen)
+	if r == nil {
+		res["reason"] = "no replay recipe for this unit (obligation reported with the solver output only)"
+		return res
+	}
+	res["attempted"] = true
+	res["recipe"] = r.kind
+	var spec any
+	var info map[string]any
+	switch r.kind {
+	case "request":
+		req, inf, ok := buildRequest(o, r)
+		info = inf
+		if !ok {
+			res["reason"] = "no candidate model (the quantifier-free weakening is not satisfiable within the limit)"
+			return res
+		}
+		sp := map[string]any{"requests_hex": []string{hex.EncodeToString(req)}, "timeout_ms": 3000, "scenarios_hex": scenarioPortfolio(r.password)}
+		if r.password {
+			sp["password"] = "s3cret"
+		}
+		spec = sp
+	case "stream":
+		st, inf, ok := buildStream(o, r)
+		info = inf
+		if !ok {
+			res["reason"] = "no candidate model (the quantifier-free weakening is not satisfiable within the limit)"
+			return res
+		}
+		var hostile []string
+		for _, h := range []string{"$9223372036854775807\r\nabc\r\n", "$9223372036854775806\r\nabc\r\n", "*2\r\n$3\r\nGET\r\n$9223372036854775807\r\nk\r\n",
+			"*9223372036854775807\r\n", "*1048577\r\n", "$536870913\r\n", "*2\r\n$3\r\nGET\r\n", "*1\r\n*1\r\n$1", "$5\r\nhello\r", "$5\r\nhelloXY", "$-2\r\n", "*-1\r\n", "$abc\r\n",
+			"*3\r\n$3\r\nSET\r\n$1\r\nk\r\n$5\r\nhello\r\n*1\r\n$4\r\nPING\r\n", "+OK\r\n:12\r\n-ERR x\r\n$0\r\n\r\n$-1\r\n*0\r\n", "?x\r\n"} {
+			hostile = append(hostile, hex.EncodeToString([]byte(h)))
+		}
+		spec = map[string]any{"stream_hex": hex.EncodeToString(st), "streams_hex": hostile, "timeout_ms": 3000}
+	}
+	res["candidate"] = info
+	cur := runReplay(repoDir(), r, spec)
+	if len(cur.Lines) == 0 {
+		res["reason"] = "replay did not run: " + cur.Err
+		res["replay_output"] = tailStr(cur.Raw, 2000)
+		return res
+	}
+	res["runs"] = cur.Lines
+	// 1. misbehaviour visible on its own
+	for _, m := range cur.Lines {
+		oc := fmt.Sprint(m["outcome"])
+		if oc == "panic" || oc == "hang" {
+			o.Reproduced = true
+			res["result"] = "reproduced"
+			res["observed"] = fmt.Sprintf("%s on the real code (%v) %v", oc, outcomeKey(m), m["panic"])
+			return res
+		}
+		if ne, ok := m["nil_element"].(bool); ok && ne {
+			o.Reproduced = true
+			res["result"] = "reproduced"
+			res["observed"] = "the parser returned an array with a nil element (" + outcomeKey(m) + ")"
+			return res
+		}
+		if sv, ok := m["span_violations"].([]any); ok && len(sv) > 0 {
+			o.Reproduced = true
+			res["result"] = "reproduced"
+			res["observed"] = fmt.Sprintf("tracing spans unbalanced on the real code (%v, %v): %v", m["scenario"], outcomeKey(m), sv)
+			return res
+		}
+		if br, ok := m["gate_breach"].(bool); ok && br {
+			o.Reproduced = true
+			res["result"] = "reproduced"
+			res["observed"] = fmt.Sprintf("handler invoked although the exact password was never sent (%v, %v): %v", m["scenario"], outcomeKey(m), m["calls"])
+			return res
+		}
+		if rq, ok := m["requests"].(float64); ok {
+			if rp, ok := m["replies"].(float64); ok && rp != rq {
+				o.Reproduced = true
+				res["result"] = "reproduced"
+				if rp < 0 {
+					res["observed"] = fmt.Sprintf("the bytes written to the client are not a sequence of complete, valid RESP values (%v): %q", outcomeKey(m), m["out"])
+				} else {
+					res["observed"] = fmt.Sprintf("%v request(s) but %v complete reply frame(s) written (%v): %q", rq, rp, outcomeKey(m), m["out"])
+				}
+				return res
+			}
+		}
+	}
+	// 2. differential replay against the committed HEAD
+	if treeChanged() {
+		bd, err := baselineDir()
+		if err == nil {
+			base := runReplay(bd, r, spec)
+			bm := map[string]map[string]any{}
+			for _, m := range base.Lines {
+				bm[outcomeKey(m)] = m
+			}
+			for _, m := range cur.Lines {
+				b, ok := bm[outcomeKey(m)]
+				if !ok {
+					continue
+				}
+				for _, f := range []string{"outcome", "out_hex", "calls", "values", "err", "closed"} {
+					if fmt.Sprint(m[f]) != fmt.Sprint(b[f]) {
+						o.Reproduced = true
+						res["result"] = "reproduced"
+						res["observed"] = fmt.Sprintf("behaviour differs from HEAD on the candidate input (%v, field %s): working tree %q vs HEAD %q", outcomeKey(m), f, fmt.Sprint(m[f]), fmt.Sprint(b[f]))
+						res["baseline_runs"] = base.Lines
+						return res
+					}
+				}
+			}
+			res["baseline"] = "same behaviour as HEAD on the candidate input"
+		} else {
+			res["baseline"] = "unavailable: " + err.Error()
+		}
+	}
+	res["reason"] = "the candidate input did not misbehave on the real code"
+	return res
+}
+
+func tailStr(s string, n int) string {
+	if len(s) > n {
+		return s[len(s)-n:]
+	}
+	return s
+}
+
+var _ = ssa.BuilderMode(0)
